@@ -15,7 +15,7 @@ META = {
     'rule': ('MDIB programs of 1-40 ops over all transaction kinds (classic and entity interface, multi-operation '
              'descriptor transactions, delete / re-create, empty transactions) on tests/mdib_two_mds.xml and '
              '70041_MDIB_Final.xml; non-trivial = program contains a multi transaction that applied >= 2 sub-operations '
-             'or a re-create of a deleted handle; distinct by program'),
+             'or a re-create of a deleted handle or an aborted transaction; distinct by program'),
     'assumptions': ['a descriptor is always created together with its state (documented assumption of '
                     'DescriptorTransaction.process_transaction)',
                     'sub-operations that touch a member of a subtree deleted in the same transaction are not generated '
@@ -140,6 +140,9 @@ def run_program(case, stop_at_first=True):
     for i, op in enumerate(prog):
         try:
             info = interp.run(op)
+            if op[0] == 'abort':
+                stats['aborts'] = stats.get('aborts', 0) + (1 if info.get('aborted') else 0)
+                op = ['abort:' + op[1][0]]
         except Exception as ex:  # noqa: BLE001
             if not R.exc_in_library(ex):
                 raise
@@ -164,7 +167,7 @@ def run_program(case, stop_at_first=True):
 
 def case_fn(ctx, case):
     findings, stats = run_program(case)
-    nontrivial = stats['multi2'] > 0 or stats['recreate'] > 0
+    nontrivial = stats['multi2'] > 0 or stats['recreate'] > 0 or stats.get('aborts', 0) > 0
     ctx.case(case, nontrivial, 'prog', classes=tuple(MP.program_classes(case['prog'])) + (
         ('recreate-applied',) if stats['recreate'] else ()) + (('multi>=2-applied',) if stats['multi2'] else ()))
     ctx.count('ops_applied', stats['applied'])
